@@ -509,7 +509,14 @@ def _hit_guarded_by(ctx, fb, cfg, fill_bi, sid, dep):
         e = sy.operand(t["discr"])
         if any(isinstance(x, tuple) and x and x[0] == "field" and len(x) > 3 and x[3] == sid and x[2] == dep
                for x in S.walk(e)):
-            guards.add(bi)
+            # only an equality test validates: an inequality admits several values of the dep for one cached value
+            bt = U.bool_switch_targets(t)
+            if e[0] == "binop" and e[1] in ("Eq", "Ne") and bt is not None:
+                hit_target = bt[1] if e[1] == "Eq" else bt[0]
+                miss_target = bt[0] if e[1] == "Eq" else bt[1]
+                # the equal branch must be the one that can return without filling
+                if _reach_avoiding_ret(cfg, hit_target, fill_bi) and not _reach_avoiding_ret(cfg, miss_target, fill_bi):
+                    guards.add(bi)
     if not guards:
         return False
     # search for a hit path avoiding guards and the fill
@@ -559,6 +566,30 @@ def consistency_group(ctx, rule):
     ctx.count("consistency_group_size", len(group))
     gnames = sorted("%s.%s" % (a.rsplit("::", 1)[-1], f) for a, f in group)
     ctx.floor(rule, "group_members", len(group), 4)
+    # frame rule: an entry point that changes the records must leave the store's settings (the fields of Store that
+    # are not part of the group) alone; each setting has its own setter
+    group_adts = set(a for a, _ in group)
+    settings = set()
+    for f in store["variants"][0]["fields"]:
+        if (sid, f["name"]) in group:
+            continue
+        if any(a in group_adts for a in eff._adts_in_type(f["ty"])):
+            continue        # container of group members (e.g. the index cell)
+        settings.add((sid, f["name"]))
+    for w in writers:
+        te_all = eff.trans(w.id)
+        touched = sorted(f for (a, f) in settings if (a, f) in te_all)
+        key = "frame:%s" % w.id
+        if not touched:
+            ctx.ok(rule, key, w.where(), "%s leaves the settings %s untouched" % (w.id, sorted(f for _, f in settings)),
+                   nontrivial=True, kind="S")
+        else:
+            wb, how = eff.explain(w.id, (sid, touched[0]))
+            ctx.fail(rule, key + ":writes=" + ",".join(touched), w.where(),
+                     "%s changes the record set and also overwrites the setting(s) %s (%s in %s): after this call the store no "
+                     "longer behaves like a fresh store with the current settings" % (w.id, touched, how[0] if how else "?", wb),
+                     {"witness": "set markers / limit; call this entry point; add a record; search: default settings are back"},
+                     kind="S")
     for w in writers:
         te = persistent(eff.trans(w.id))
         missing = sorted("%s.%s" % (a.rsplit("::", 1)[-1], f) for (a, f) in group if (a, f) not in te)
